@@ -9,6 +9,8 @@ from ..common import MachineryError, Run, dump_ndjson, pmap, scratch
 from ..common import rng_pinned as rng_for
 
 ADS = ["O", "H", "N", "S"]
+N_VARIANTS = {"quick": 2, "thorough": 6}
+_TIER = ["quick"]
 
 
 def descriptors(tier):
@@ -28,6 +30,16 @@ def descriptors(tier):
             if tier == "quick" and k % 2:
                 continue
             out.append({"kind": "slab", "name": name, "facet": f, "layers": 3, "n_ads": (k // 2) % 3, "ads": "Au" if "O" in name else "O", "i": k})
+    # two adsorbates commensurate with the slab lattice: half a lateral cell vector / half the lateral diagonal apart
+    kp = 0
+    for name, sym in crystalfam.elements():
+        facets = {"fcc": [(1, 0, 0), (1, 1, 1)], "bcc": [(1, 0, 0)], "hcp": [(0, 0, 1)], "diamond": [(1, 1, 1)], "sc": [(1, 0, 0)]}[sym]
+        for f in facets:
+            kp += 1
+            if tier == "quick" and kp % 4 != 1:
+                continue
+            out.append({"kind": "slab", "name": name, "facet": f, "layers": 3 + (kp // 4) % 2, "n_ads": 2, "ads": ["H", "O", "N"][kp % 3],
+                        "placement": ["half_a", "half_b", "half_diag"][kp % 3], "i": 7000 + kp})
     for mi, name in enumerate(["graphene", "BN", "MoS2-2H", "MoS2-1T", "WSe2-2H", "TiS2-1T"]):
         for size in ((3, 5) if tier == "quick" else (3, 4, 5, 6)):
             out.append({"kind": "mono", "name": name, "size": size, "i": 5000 + mi * 10 + size})
@@ -42,22 +54,30 @@ def execute(job):
         ads = []
         exp = "Material2D"
     else:
-        try:
-            # rectangular lateral supercells (one more repeat along a) for every third descriptor
-            a = crystalfam.slab(desc["name"], desc["facet"], desc["layers"], True, rng, min_lateral=9.0,
-                                extra=(1, 0) if desc["i"] % 3 == 0 else (0, 0))
-        except Exception as e:
-            return {"skip": "builder failed: %s" % e}
-        if a is None:
-            return {"skip": "primitive cell too large"}
-        if len(a) > 300:
-            return {"skip": "too many atoms"}
-        ok, why = crystalfam.precondition(a, 2, check_heights=False)
-        if not ok:
-            return {"skip": why}
-        if desc["ads"] in a.get_chemical_symbols():
-            return {"skip": "adsorbate species present in the slab"}
-        ads = crystalfam.add_adsorbates(a, desc["n_ads"], desc["ads"], rng)
+        placement = desc.get("placement", "random")
+        # rectangular lateral supercells (one more repeat along a) for every third descriptor; commensurate pairs need an even
+        # number of repeats along the pair's direction, so further repeats are tried until the two top sites exist
+        extras = [(1, 0) if desc["i"] % 3 == 0 else (0, 0)] if placement == "random" else [(0, 0), (1, 0), (0, 1), (1, 1)]
+        ads = None
+        for extra in extras:
+            try:
+                a = crystalfam.slab(desc["name"], desc["facet"], desc["layers"], True, rng, min_lateral=9.0, extra=extra)
+            except Exception as e:
+                return {"skip": "builder failed: %s" % e}
+            if a is None:
+                return {"skip": "primitive cell too large"}
+            if len(a) > 300:
+                return {"skip": "too many atoms"}
+            ok, why = crystalfam.precondition(a, 2, check_heights=False)
+            if not ok:
+                return {"skip": why}
+            if desc["ads"] in a.get_chemical_symbols():
+                return {"skip": "adsorbate species present in the slab"}
+            ads = crystalfam.add_adsorbates(a, desc["n_ads"], desc["ads"], rng, placement=placement)
+            if ads is not None:
+                break
+        if ads is None:
+            return {"skip": "no pair of top sites half a lateral vector apart"}
         exp = "Surface"
     if desc["i"] % 2:
         # relabel the lateral axes (a' = b, b' = -a: same lattice, same handedness)
@@ -66,6 +86,29 @@ def execute(job):
         a.wrap()
     a2, perm = structures.rigid(a, rng)
     rec = clsrun.classify_record(a2, {})
+    # the same structure translated so that the slab continues through the periodic boundary along its normal (and laterally),
+    # wrapped into the cell, then rotated and permuted again: class and outliers (in the original numbering) must not change
+    variants = []
+    for t in range(N_VARIANTS[_TIER[0]] if desc["kind"] == "slab" else 1):
+        b = a.copy()
+        fz = float(rng.uniform(0.25, 0.75)) if t % 3 != 2 else float(rng.uniform(0, 1))
+        shift = fz * b.cell[2] + float(rng.uniform(0, 1)) * b.cell[0] + float(rng.uniform(0, 1)) * b.cell[1]
+        b.translate(shift)
+        b.wrap()
+        b2, pm = structures.rigid(b, rng, translate=False)
+        v = {"fz": fz, "cls": "", "outliers": [], "error": ""}
+        try:
+            from matid.classification.classifier import Classifier
+
+            c = Classifier().classify(b2)
+            v["cls"] = type(c).__name__
+            if v["cls"] in ("Surface", "Material2D"):
+                v["outliers"] = sorted(int(pm[int(i)]) + 1 for i in c.outliers)
+        except Exception as e:
+            v["error"] = "%s: %s" % (type(e).__name__, str(e)[:120])
+        variants.append(v)
+    rec["variants"] = variants
+    rec["expected_outliers_orig"] = sorted(int(i) + 1 for i in ads)
     rec.update({"desc": {k: (list(v) if isinstance(v, tuple) else v) for k, v in desc.items()}, "stream": stream, "expected_cls": exp,
                 "expected_outliers": sorted(int(np.flatnonzero(perm == i)[0]) + 1 for i in ads)})
     return rec
@@ -73,6 +116,7 @@ def execute(job):
 
 def run(tier):
     run = Run("C18", tier, "exploration")
+    _TIER[0] = tier
     d = scratch("c18")
     res = tlc.run("Classifier.tla", "Classifier_mc.cfg")
     if res.violated:
